@@ -248,7 +248,7 @@ BidAdmissible(S, a) ==
   /\ Has(S.ord, oid) /\ S.ord[oid].state = "open"
   /\ Has(S.prov, a.p) /\ a.p # a.t
   /\ a.price > 0 /\ Has(S.grp, gid) /\ a.price <= S.grp[gid].price
-  /\ a.deposit >= BidMinDeposit
+  /\ a.deposit >= BidMinDeposit /\ ADenom(a) = "uakt" /\ APDenom(a) = "uakt"
   /\ LET g == S.grp[gid] IN
      IF g.allOf = {} /\ g.anyOf = {}
      THEN Covers(S.prov[a.p].attrs, g.req)
